@@ -601,6 +601,9 @@ struct GMod {
     used: Vec<String>,
     /// number of module instances one instance of this type expands to (estimate, keeps builds small)
     count: usize,
+    /// this module re-declares the gates of that module (conforms to it without inheriting);
+    /// `true`: one cardinality was changed on purpose (same gate names, must not conform)
+    twin: Option<(usize, bool)>,
 }
 
 /// upper bound (estimate) on the module instances of one generated simulation
@@ -685,7 +688,11 @@ fn gen_valid(r: &mut Rng, thorough: bool) -> (Vec<GMod>, Vec<String>, String) {
     for (i, n) in ["fast", "slow", "wan"].iter().enumerate() {
         if (i as u64) < nlinks {
             let q = if r.chance(1, 2) { r.below(64).to_string() } else { "-".to_string() };
-            links.push(format!("link {n} {} {} {} {q}", r.below(200), r.below(20), r.below(1_000_000)));
+            // zero latency / jitter (the serde defaults) are common: such a link still has a channel
+            let lat = if r.chance(1, 3) { 0 } else { r.below(200) };
+            let jit = if r.chance(1, 2) { 0 } else { r.below(20) };
+            let bit = if r.chance(1, 8) { 0 } else { r.below(1_000_000) };
+            links.push(format!("link {n} {lat} {jit} {bit} {q}"));
         }
     }
     let link_names: Vec<&str> = ["fast", "slow", "wan"][..nlinks as usize].to_vec();
@@ -693,7 +700,7 @@ fn gen_valid(r: &mut Rng, thorough: bool) -> (Vec<GMod>, Vec<String>, String) {
     for i in 0..k {
         let tag = format!("m{i}");
         let name = names[i].to_string();
-        let mut m = GMod { tag: tag.clone(), name: name.clone(), generic: vec![], inherit: None, gates: vec![], subs: vec![], lines: vec![], used: vec![], count: 1 };
+        let mut m = GMod { tag: tag.clone(), name: name.clone(), generic: vec![], inherit: None, gates: vec![], subs: vec![], lines: vec![], used: vec![], count: 1, twin: None };
         let plain: Vec<usize> = (0..i).filter(|&j| mods[j].generic.is_empty()).collect();
         // generics
         if !plain.is_empty() && r.chance(1, 3) {
@@ -718,6 +725,21 @@ fn gen_valid(r: &mut Rng, thorough: bool) -> (Vec<GMod>, Vec<String>, String) {
             m.used = mods[p].used.clone();
             m.count = mods[p].count;
             m.lines.push(format!("inherit {tag} {}", mods[p].name));
+        }
+        // a structural twin: the same gate names as an earlier module, without inheriting from it;
+        // sometimes with one cardinality changed (then it must NOT conform as a type argument)
+        if m.inherit.is_none() && m.generic.is_empty() && r.chance(1, 5) {
+            let cands: Vec<usize> = plain.iter().copied().filter(|&j| !mods[j].gates.is_empty() && mods[j].subs.is_empty() && mods[j].used.is_empty()).collect();
+            if !cands.is_empty() {
+                let b = *r.pick(&cands);
+                let vary = if r.chance(1, 3) { Some(r.below(mods[b].gates.len() as u64) as usize) } else { None };
+                for (gi, (g, size)) in mods[b].gates.clone().into_iter().enumerate() {
+                    let size = if vary == Some(gi) { if size == 0 { r.range(1, 3) as usize } else if r.chance(1, 3) { 0 } else { size + 1 } } else { size };
+                    m.gates.push((g.clone(), size));
+                    m.lines.push(format!("gate {tag} {}", field(&g, size)));
+                }
+                m.twin = Some((b, vary.is_some()));
+            }
         }
         // gates
         for _ in 0..r.below(4) {
@@ -761,7 +783,7 @@ fn gen_valid(r: &mut Rng, thorough: bool) -> (Vec<GMod>, Vec<String>, String) {
                     let mut args = Vec::new();
                     for (_, bound) in &mods[ty].generic {
                         // a conforming argument: a module inheriting the bound, or the bound itself
-                        let inh: Vec<usize> = (0..i).filter(|&j| mods[j].generic.is_empty() && mods[j].inherit == Some(*bound)).collect();
+                        let inh: Vec<usize> = (0..i).filter(|&j| mods[j].generic.is_empty() && (mods[j].inherit == Some(*bound) || mods[j].twin.map(|t| t.0) == Some(*bound))).collect();
                         let c = if r.chance(1, 12) {
                             r.below(i as u64) as usize
                         } else if !inh.is_empty() && r.chance(3, 4) {
@@ -858,7 +880,7 @@ fn mutate(r: &mut Rng, lines: &mut Vec<String>) -> &'static str {
     let tok_of = |lines: &Vec<String>, i: usize, t: usize| -> String { lines[i].split(' ').nth(t).unwrap_or("").to_string() };
     let bad_clauses = ["G(C", "G(", "(", "G(C))", "G()", "G(C,D)", "G(C, )", "G(, C)", " G", "G (C)", "G(C)x", "G)", "T(I)", "G(T)", ""];
     let bad_fields = ["x[", "x]", "x[]", "x[a]", "x[-1]", "x[+2]", "x[1]]", "x[[1]", "[1]", "x[1][2]", "x[18446744073709551616]", "x[0]", "", "x "];
-    match r.below(20) {
+    match r.below(24) {
         0 => {
             // dangling type name of a submodule
             if let Some(i) = idx_of(lines, r, "sub ") {
@@ -1073,6 +1095,129 @@ fn mutate(r: &mut Rng, lines: &mut Vec<String>) -> &'static str {
                 lines.swap(a, b);
             }
             "swap"
+        }
+        19 | 20 => {
+            // `inherit:` names one of the module's own type parameters — with no such global module
+            // (dangling: must be UnresolvableDependency) or with a global module of that name
+            if let Some(i) = idx_of(lines, r, "mod ") {
+                let tag = tok_of(lines, i, 1);
+                let key = unesc(&tok_of(lines, i, 2));
+                let name = key.split('(').next().unwrap_or("A").trim().to_string();
+                let mut binds: Vec<String> = match key.split_once('(') {
+                    Some((_, rest)) => rest
+                        .trim_end_matches(')')
+                        .split(", ")
+                        .filter_map(|a| a.split_once("<-").map(|x| x.0.trim().to_string()))
+                        .collect(),
+                    None => vec![],
+                };
+                if binds.is_empty() {
+                    // make the module generic first
+                    let other: Vec<String> = lines
+                        .iter()
+                        .filter(|l| l.starts_with("mod "))
+                        .map(|l| unesc(l.split(' ').nth(2).unwrap_or("")).split('(').next().unwrap_or("").to_string())
+                        .filter(|n| *n != name && !n.is_empty())
+                        .collect();
+                    let bound = if other.is_empty() { "Zz".to_string() } else { r.pick(&other).clone() };
+                    let b = if r.chance(1, 2) { "T" } else { "P" };
+                    set_tok(lines, i, 2, esc(&format!("{name}({b} <- {bound})")));
+                    binds.push(b.to_string());
+                }
+                let b = r.pick(&binds).clone();
+                lines.retain(|l| !l.starts_with(&format!("inherit {tag} ")));
+                let pos = lines.iter().position(|l| l.starts_with(&format!("mod {tag} "))).unwrap_or(0);
+                lines.insert(pos + 1, format!("inherit {tag} {}", esc(&b)));
+                if r.chance(1, 2) {
+                    // … and a global module of the same name
+                    let at = r.below(lines.len() as u64 - 2) as usize;
+                    let at = if lines[at].starts_with("entry") { at + 1 } else { at };
+                    let mut blk = vec![format!("mod mglob{} {}", r.below(1000), esc(&b))];
+                    if r.chance(1, 2) {
+                        let t = blk[0].split(' ').nth(1).unwrap().to_string();
+                        blk.push(format!("gate {t} port"));
+                    }
+                    // keep module blocks contiguous: insert before a `mod` line
+                    let at = (at..lines.len()).find(|&k| lines[k].starts_with("mod ") || lines[k] == "yaml").unwrap_or(lines.len() - 3);
+                    for (k, l) in blk.into_iter().enumerate() {
+                        lines.insert(at + k, l);
+                    }
+                }
+            }
+            "inherit-binding"
+        }
+        21 | 22 => {
+            // a looked-up symbol collides with another name of the same module:
+            // a type parameter, a gate, a submodule or a link
+            if let Some(i) = idx_of(lines, r, "mod ") {
+                let tag = tok_of(lines, i, 1);
+                let key = unesc(&tok_of(lines, i, 2));
+                let mut names: Vec<String> = Vec::new();
+                if let Some((_, rest)) = key.split_once('(') {
+                    for a in rest.trim_end_matches(')').split(", ") {
+                        if let Some((b, _)) = a.split_once("<-") {
+                            names.push(b.trim().to_string());
+                        }
+                    }
+                }
+                for l in lines.iter() {
+                    let tok: Vec<&str> = l.split(' ').collect();
+                    match tok.as_slice() {
+                        ["gate", t, f] if *t == tag => names.push(unesc(f).split('[').next().unwrap_or("").to_string()),
+                        ["sub", t, _, f, _] if *t == tag => names.push(unesc(f).split('[').next().unwrap_or("").to_string()),
+                        ["link", n, ..] => names.push(unesc(n)),
+                        _ => {}
+                    }
+                }
+                names.retain(|n| !n.is_empty());
+                if !names.is_empty() {
+                    let nm = esc(r.pick(&names).as_str());
+                    let mine = |p: &str, lines: &Vec<String>, r: &mut Rng| -> Option<usize> {
+                        let c: Vec<usize> = lines.iter().enumerate().filter(|(_, l)| l.starts_with(&format!("{p} {tag} "))).map(|x| x.0).collect();
+                        if c.is_empty() { None } else { Some(*r.pick(&c)) }
+                    };
+                    match r.below(6) {
+                        0 => {
+                            lines.retain(|l| !l.starts_with(&format!("inherit {tag} ")));
+                            let pos = lines.iter().position(|l| l.starts_with(&format!("mod {tag} "))).unwrap_or(0);
+                            lines.insert(pos + 1, format!("inherit {tag} {nm}"));
+                        }
+                        1 => {
+                            if let Some(k) = mine("sub", lines, r) {
+                                let t = tok_of(lines, k, 4);
+                                let v = match t.find('(') {
+                                    Some(p) => format!("{nm}{}", &t[p..]),
+                                    None => nm.clone(),
+                                };
+                                set_tok(lines, k, 4, v);
+                            }
+                        }
+                        2 => {
+                            if let Some(k) = mine("sub", lines, r) {
+                                let t = tok_of(lines, k, 4);
+                                let base = t.split('(').next().unwrap_or("A").to_string();
+                                set_tok(lines, k, 4, format!("{base}({nm})"));
+                            }
+                        }
+                        3 => {
+                            let name = key.split('(').next().unwrap_or("A").trim().to_string();
+                            let b = if r.chance(1, 2) { "T" } else { "U" };
+                            set_tok(lines, i, 2, esc(&format!("{name}({b} <- {})", unesc(&nm))));
+                        }
+                        4 => {
+                            if let Some(k) = mine("conn", lines, r) {
+                                set_tok(lines, k, 4, nm.clone());
+                            }
+                        }
+                        _ => {
+                            if let Some(k) = idx_of(lines, r, "entry ") {
+                                set_tok(lines, k, 1, nm.clone());
+                            }
+                        }
+                    }
+                }
+            }
+            "name-collision"
         }
         _ => {
             // whitespace inside clauses
